@@ -326,6 +326,7 @@ class Engine:
         self.attr_hooks = {}
         self.filters = {}
         self.truth_hooks = {}
+        self.concat_hooks = {}   # (literal prefix, abstract sort name) -> fn(engine, value): "<prefix>" + value
         self.join_hooks = {}     # separator -> fn(engine, pieces): meaning of sep.join(<symbolic pieces>)
         self.setattr_hooks = {}  # (kind, attr) -> fn(engine, value, new): attribute assignment on an abstract object
         self.stmt_ghosts = False
